@@ -15,7 +15,9 @@ ARGV = {
     # tag must be named unambiguously (%(refname:short) prints tags/<name> when a branch has the same name)
     "get_all_tags_from_commit_hash#0": ([["tag", "--points-at", "--no-column"], ["tag", "--points-at", "--column=never"], ["for-each-ref", "--points-at", "refs/tags", "strip=2"]],
                                         ["--merged", "--contains", "--no-contains", "refname:short"]),
-    "calculate_distance#0": (["rev-list", "--count"], ["--all", "--first-parent", "--no-merges", "--merges"]),
+    # the count is over every commit reachable from HEAD and not from the tag: no option that thins out or cuts the walk
+    "calculate_distance#0": (["rev-list", "--count"], ["--all", "--first-parent", "--no-merges", "--merges", "--ancestry-path", "--max-count", "-n", "--skip", "--since", "--until", "--after", "--before",
+                                                       "--no-walk", "--boundary", "--left-right", "--cherry-pick", "--cherry-mark", "--simplify-by-decoration", "--min-parents", "--max-parents", "--author", "--grep"]),
     "get_commit_hash#0": ([["rev-parse", "HEAD"], ["rev-list", "-n", "1", "HEAD"], ["log", "-1", "%H"]], ["--short", "%h"]),
     "get_current_branch#0": ([["branch", "--show-current"], ["symbolic-ref", "--short", "HEAD"]], []),
     "get_commit_timestamp#0": ([["log", "-1", "%ct"], ["log", "-n", "1", "%ct"], ["show", "-s", "%ct"]], ["%at", "%ad", "%cd"]),
@@ -175,7 +177,7 @@ def check(F, rep, tier):
                     misses = [[r for r in alt if not any(r == x or r in x for x in flat)] for alt in alts]
                     miss = [] if any(not m for m in misses) else min(misses, key=len)
                     req = next((alt for alt, m in zip(alts, misses) if not m), alts[0])
-                    bad = [b for b in forb if any(b == x or (not b.startswith("-") and b in x) for x in flat)]     # options by equality, format pieces by containment
+                    bad = [b for b in forb if any(b == x or (b.startswith("--") and x.startswith(b + "=")) or (not b.startswith("-") and b in x) for x in flat)]     # options by equality, format pieces by containment
                     if miss or bad: rep.bad("R02.4", "argv:" + k, "git %s: required tokens missing %s, forbidden tokens present %s (argv %s)" % (k, miss, bad, flat), site)
                     else: rep.ok("R02.4", "git %s argv has %s" % (k, req), sample=flat, nontrivial_key=k)
                     if k == "calculate_distance#0":
